@@ -139,3 +139,25 @@ def run(ctx, spec):
                 e, cls, (', ' + cls2) if cls2 else '', an[:70], want[:64], [regvals.get(t, t)[:40] for t in toks[2:]]),
                 observed=an[:2000], expected=want[:2000], line=pr.lines[i][:2000])
     ctx.sample(kind, {'program': [l[:110] for l in pr.lines[-3:]], 'answers': [a[:90] for a in ans[-3:]]})
+
+
+def stages(tier, seed):
+    """thorough: shared-&G2Prepared threads and histories under ThreadSanitizer, threaded cold start of the lazily initialised
+    constants under ThreadSanitizer (repeated runs) and under Miri (several schedules)"""
+    if tier != 'thorough':
+        return []
+    from .. import stages as st
+
+    def tsan_threads(exes):
+        picks = [('c03', ('threads', i)) for i in range(12)] + [('c03', ('history', i)) for i in range(6)]
+        return st.differential(ID, 'tsan', picks, tier, seed, exes, 'tsan-shared-prepared')
+
+    def tsan_cold(exes):
+        return st.cold_start('tsan', 'tsan-cold-start', runs=24, threads=8, exes=exes)
+
+    def miri_cold(exes):
+        return st.miri_cold_start('miri-cold-start', threads=4, seeds=6)
+    tsan_threads.__name__ = 'tsan-shared-prepared'
+    tsan_cold.__name__ = 'tsan-cold-start'
+    miri_cold.__name__ = 'miri-cold-start'
+    return [tsan_threads, tsan_cold, miri_cold]
